@@ -251,7 +251,15 @@ theorem ident_natives (cx : Cx) (fx : Fx) : ∀ (t : Ty) (x b : V), Frag t → t
   | .union _, _, _, hf, _, _, _ => by simp [Frag] at hf
   | .enum _ _, _, _, _, hi, _, _ => by simp [Ty.packIdent] at hi
   | .lit _, _, _, _, hi, _, _ => by simp [Ty.packIdent] at hi
-  | .opt _, _, _, _, hi, _, _ => by simp [Ty.packIdent] at hi
+  | .opt t, x, b, hf, hi, hc, hp => by
+      simp only [Conf] at hc
+      by_cases hn : x = .none
+      · subst hn; rw [pack] at hp; cases hp; simp [printN]
+      · rcases hc with rfl | hc
+        · exact absurd rfl hn
+        · have hp' : pack O (plainOf cx) fx t x = .ok b := by
+            rw [pack] at hp <;> first | exact hp | exact hn
+          exact ident_natives cx fx t x b (by simpa [Frag] using hf) (by simpa [Ty.packIdent] using hi) hc hp'
   | .chain _ _, _, _, _, hi, _, _ => by simp [Ty.packIdent] at hi
   | .tvar _, _, _, _, hi, _, _ => by simp [Ty.packIdent] at hi
   | .tfix _, _, _, _, hi, _, _ => by simp [Ty.packIdent] at hi
@@ -321,7 +329,9 @@ theorem plain_ident_any_cx (cx : Cx) : ∀ (t : Ty), Frag t → t.packIdent (pla
   | .map o _ _, _, h => by cases o <;> simp [Ty.packIdent, plainOf] at h
   | .enum _ _, _, h => by simp [Ty.packIdent] at h
   | .lit _, _, h => by simp [Ty.packIdent] at h
-  | .opt _, _, h => by simp [Ty.packIdent] at h
+  | .opt t, hf, h => by
+      simp only [Ty.packIdent] at h ⊢
+      exact plain_ident_any_cx cx t (by simpa [Frag] using hf) h
   | .chain _ _, _, h => by simp [Ty.packIdent] at h
   | .tvar _, _, h => by simp [Ty.packIdent] at h
   | .tfix _, _, h => by simp [Ty.packIdent] at h
